@@ -146,6 +146,97 @@ def trace_backend(rng: random.Random, n_ops: int, modes: Tuple[str, ...] = ("all
     return traces
 
 
+REAL_KINDS = {"f64": (torch.float64, 30, (0, 0, 150, -150), 1e-12), "f32": (torch.float32, 12, (0, 0, 40, -40), 1e-5)}
+DYADIC_VOCAB = [v for v in fxgen.TRACK_VOCAB if v not in ("near1", "mul_kw")]   # homogeneous of degree 1: sums of dyadics stay exact
+
+
+def true_stats(t: torch.Tensor) -> Dict[str, float]:
+    x = t.detach().to(torch.float64).reshape(-1)
+    return {"mean_abs": float(x.abs().mean()), "abs_mean": float(x.mean().abs()), "std": float(x.std()) if x.numel() > 1 else float("nan"),
+            "abs_max": float(x.abs().max()), "abs_min": float(x.abs().min()), "numel": int(x.numel())}
+
+
+def which_wrong(d: Any, t: Optional[torch.Tensor], tol: float) -> str:
+    """"" if the recorded Metrics.Data equals the statistics of the captured tensor (max/min/numel exactly; means and
+    std within `tol` of the tensor's magnitude: they are reductions computed in the tensor's own dtype)."""
+    if d is None or t is None:
+        return ""
+    ts = true_stats(t)
+    mag = ts["abs_max"]
+    if int(d.numel) != ts["numel"]:
+        return "numel"
+    if d.abs_max != ts["abs_max"]:
+        return "abs_max"
+    if d.abs_min != ts["abs_min"]:
+        return "abs_min"
+    for k in ("mean_abs", "abs_mean", "std"):
+        a, b = getattr(d, k), ts[k]
+        if math.isnan(b):
+            continue
+        if not (abs(a - b) <= tol * mag):
+            return k
+    return ""
+
+
+def trace_backend_real(rng: random.Random, n_ops: int, dt: str, modes: Tuple[str, ...] = ("all",)) -> Optional[List[Dict[str, Any]]]:
+    """As trace_backend, for non-integer data in float64 / float32: every value is (small integer + small integer *
+    2^-frac) * 2^k -- exactly representable in the dtype, and closed under the (degree-1 homogeneous) vocabulary, so that
+    every gradient sum is exact and bit-identity does not depend on autograd's accumulation order -- but NOT representable
+    in any narrower float type.  Metrics are compared by the harness with float64 statistics of the captured tensors;
+    TLC receives the verdict flags (kind "track_real")."""
+    from unit_scaling.transforms._track_scales import ScaleTrackingBackend
+
+    dtype, frac, exps, tol = REAL_KINDS[dt]
+    gm, nin, nout = fxgen.random_tracked_module(rng, n_ops, DYADIC_VOCAB)
+    gm = gm.to(dtype)
+    g = torch.Generator().manual_seed(rng.randrange(1 << 30))
+    k = rng.choice(exps)
+    be = ScaleTrackingBackend()
+    f = None
+    traces = []
+
+    def dyadic(ints: torch.Tensor) -> torch.Tensor:
+        lo = torch.randint(-5, 6, ints.shape, generator=g).to(dtype)
+        return (ints.to(dtype) + lo * 2.0 ** -frac) * 2.0 ** k
+
+    for mode in modes:
+        xs = [dyadic(x) for x in fxgen.int_inputs(rng, nin, with_zeros=True)]
+        ups = [dyadic(torch.randint(-2, 3, fxgen.SHAPE, generator=g)) for _ in range(nout)]
+        cap, pins, pouts = plain_run(gm, xs, ups, mode)
+        vals = {name: (v.detach().clone(), (v.grad.detach().clone() if (v.requires_grad and v.grad is not None) else None))
+                for name, v in cap.vals.items() if isinstance(v, torch.Tensor) and v.is_floating_point()}
+        for name, (v, gv) in vals.items():   # stay inside the exactly representable range
+            if not bool(torch.isfinite(v).all()) or float(v.abs().max()) > 65 * 2.0 ** k or (gv is not None and float(gv.abs().max()) > 65 * 2.0 ** k):
+                return None
+        pgrad = {kk: (v.grad.clone() if v.grad is not None else None) for kk, v in gm.named_parameters()}
+        gm.zero_grad(set_to_none=True)
+        if f is None:
+            f = be(gm, xs)
+        tins = [x.clone().requires_grad_() for x in xs]
+        touts = f(*tins)
+        touts = touts if isinstance(touts, tuple) else (touts,)
+        backward_some(touts, ups, mode)
+        same_out = len(touts) == len(pouts) and all(torch.equal(a, b) and a.dtype == b.dtype for a, b in zip(touts, pouts))
+        gsame = all((a.grad is None and b.grad is None) or (a.grad is not None and b.grad is not None and a.grad.dtype == b.grad.dtype and torch.equal(a.grad, b.grad)) for a, b in zip(tins, pins))
+        for kk, v in gm.named_parameters():
+            a, b = v.grad, pgrad[kk]
+            gsame = gsame and ((a is None and b is None) or (a is not None and b is not None and torch.equal(a, b)))
+        nodes = []
+        for n in be.graph.nodes:
+            if n.op == "output":
+                continue
+            isf = n.name in vals
+            m = n.meta.get("metrics")
+            v, gv = vals.get(n.name, (None, None))
+            nodes.append({"name": n.name, "float": bool(isf), "has": m is not None,
+                          "fwd": {"present": bool(m is not None and m.fwd is not None)}, "bwd": {"present": bool(m is not None and m.bwd is not None)},
+                          "cf": {"present": v is not None}, "cb": {"present": gv is not None},
+                          "fwd_bad": which_wrong(m.fwd if m else None, v, tol), "bwd_bad": which_wrong(m.bwd if m else None, gv, tol)})
+        traces.append({"kind": "track_real", "same_out": bool(same_out), "same_grad": bool(gsame), "nodes": nodes,
+                       "code": f"dtype {dt}, values (int + int*2^-{frac}) * 2^{k}; run history {list(modes)}, this run: {mode}\n" + gm.code})
+    return traces
+
+
 class DynMod(nn.Module):
     def __init__(self, variant: int):
         super().__init__()
@@ -280,6 +371,14 @@ def run(rep: Report, tier: str) -> None:
             continue
         traces += ts
         rep.case(("backend", i), nontrivial=len(ts[0]["nodes"]) >= 4)
+    for i in range(60 if quick else 900):
+        dt = ("f64", "f64", "f32")[i % 3]
+        ts = trace_backend_real(rng, rng.randint(1, 7), dt, HIST[i % len(HIST)])
+        if ts is None:
+            skipped += 1
+            continue
+        traces += ts
+        rep.case(("backend_real", dt, i), nontrivial=len(ts[0]["nodes"]) >= 4)
     for i in range(40 if quick else 400):
         t = trace_analyse(rng, rng.randint(1, 6))
         if t is None:
@@ -294,7 +393,7 @@ def run(rep: Report, tier: str) -> None:
             rep.case(("dynamo", v))
     rep.extra["graphs_skipped_values_out_of_exact_range"] = skipped
     payload = [{"kind": t["kind"], "same_out": t["same_out"], "same_grad": t["same_grad"],
-                "nodes": [{k: v for k, v in n.items() if k != "name"} for n in t["nodes"]]} for t in traces]
+                "nodes": [dict({"fwd_bad": "", "bwd_bad": ""}, **{k: v for k, v in n.items() if k != "name"}) for n in t["nodes"]]} for t in traces]
     B = 400
     for i in range(0, len(payload), B):
         out = common.validate_traces("TrackScales_Trace", "TrackScales_Trace.cfg", payload[i : i + B], timeout=1800, tag="tstr")
